@@ -78,7 +78,14 @@ def main():
                 out["ok"] = True
             else:
                 h = HP()
-                h.feed(base64.b64decode(req["html_b64"]).decode("utf-8"))
+                raw = base64.b64decode(req["html_b64"])
+                out["utf8_ok"] = True
+                try:
+                    text = raw.decode("utf-8")
+                except UnicodeDecodeError:
+                    out["utf8_ok"] = False
+                    text = raw.decode("utf-8", errors="replace")
+                h.feed(text)
                 h.close()
                 out["tags"], out["scripts"], out["text"] = h.tags, h.scripts, h.text
                 out["ok"] = True
